@@ -10,6 +10,10 @@ OPT_NOTE = ("Trusted: Coq 8.16.1 kernel (vm_compute, no native_compute); extract
             "bit-identical parameter vectors at every State::score() call and return the same state).")
 
 ENGINES = [
+    {"name": "parse", "path": "harness/src/parse.rs + ocaml/engine_parse.ml + bin/eng_parse.py + coq/model/Parse.v",
+     "serves_properties": ["C17"],
+     "kind_free_text": "bit-exact correspondence of the extracted parser model with Transform2::from_operations on grammar and "
+                       "arbitrary strings; independent expression evaluator as monitor"},
     {"name": "tables", "path": "harness/src/dump.rs + bin/gen.py + coq/gen/*.v + coq/model/Spec.v",
      "serves_properties": ["C16", "C10", "C04", "C08"],
      "kind_free_text": "regeneration of the data-like model parts (group tables, handle bounds, JSON schema) from the running code; "
@@ -25,6 +29,17 @@ NOTES = ("Every claimed check = (1) proof gate: full coqc build of coq/props/<id
          "current working tree; (3) direct monitors that search for a concrete failing input.  See DESIGN.md.")
 
 CLAIMS = {
+    "C17": dict(
+        engine="parse", design_ref="DESIGN.md section 4 C17",
+        technique="Coq proof by induction over grammar derivations (strings of every length) + bit-exact model/impl comparison on strings",
+        text="Theorem (reals): for every well-formed operation (two components of signed terms x, y, d, d/d', each kind at most "
+             "once) and EVERY rendering of it (arbitrary spaces, optional '+', any number of outer parentheses) the parser model "
+             "returns Ok with exactly the coefficients the expression denotes, so matrix*(x,y,1) is the value of the "
+             "expression; the model is a total function (no crash is possible in it).  The model's binary64 instance is compared "
+             "bit-for-bit with Transform2::from_operations on grammar strings and on arbitrary/malformed/multi-byte strings, "
+             "where a Rust panic is a violation; the 17 built-in strings parse (in the model) to the regenerated tables.",
+        note="Trusted: Coq kernel; extraction; harness/driver transport (strings as hex bytes); the byte-level model of "
+             "Rust's char-level trim/split (multi-byte characters never contain the ASCII bytes involved)."),
     "C16": dict(
         engine="tables", design_ref="DESIGN.md section 4 C16",
         technique="model regenerated from the running code + vm_compute over the complete finite domain + Coq proof of metric invariance for all cells",
@@ -84,4 +99,4 @@ CLAIMS = {
 
 _NOT_YET = "not claimed yet: the model/theorems/engine for this property are still being built (see DESIGN.md section 7)"
 NOT_APPLICABLE = {p: _NOT_YET for p in
-                  ["C01", "C02", "C03", "C04", "C08", "C09", "C10", "C11", "C12", "C13", "C14", "C15", "C17"]}
+                  ["C01", "C02", "C03", "C04", "C08", "C09", "C10", "C11", "C12", "C13", "C14", "C15"]}
